@@ -811,7 +811,9 @@ def check_rootio(ctx, rid, repo):
             ext = {"__strict__": True, "parse": parse, "dumps": lambda a, k: Obj("json_text", {"of": _canon(a[0])}, closed=True), "dump": lambda a, k, rec=rec: rec["dumped"].append((_canon(a[0]), a[1] if len(a) > 1 else None)),
                    "echo": lambda a, k, rec=rec: rec["echo"].append(a[0] if a else ""), "open": lambda a, k: Obj("outfile", {"path": a[0]}, closed=True)}
             w = World(ext, module_env={"click": Obj("click"), "json": Obj("json"), "log": Obj("log")})
-            mounts = (("host", "mnt"),)
+            # several -v options, nested mount points, NOT in sorted order, one given twice: the resolver applies the first match in
+            # the order the user gave, so the order (and multiplicity) must arrive as given
+            mounts = (("z_relocated", "/archive/data"), ("a_archive", "/archive"), ("z_relocated", "/archive/data"))
             try:
                 w.call_func(f, [], {"entrypoint_xml": "top.xml", "basedir": "BASE", "mount": mounts, "output_file": out_file, "track_progress": flags[0], "validation_as_error": flags[1]})
             except RaisedInFragment as e:
@@ -825,7 +827,7 @@ def check_rootio(ctx, rid, repo):
             texts = [e.attrs["of"] for e in rec["echo"] if isinstance(e, Obj) and e.name == "json_text"]
             ok_out = (texts == ["<PARSED_WORKSPACE>"] and not rec["dumped"]) if out_file is None else (len(rec["dumped"]) == 1 and rec["dumped"][0][0] == "<PARSED_WORKSPACE>" and getattr(rec["dumped"][0][1], "attrs", {}).get("path") == out_file and not texts)
             if not ok_call:
-                ctx.violated(rid, f, f"{label}: library call", "readxml.parse does not receive (the entry-point file, --basedir, mounts=-v, track_progress, validation_as_error) as given", expected="parse('top.xml', 'BASE', mounts=(('host','mnt'),), track_progress=..., validation_as_error=...)", found=str([{k_: _canon(v_) for k_, v_ in c_.items()} for c_ in calls])[:300], node=f.node)
+                ctx.violated(rid, f, f"{label}: library call", "readxml.parse does not receive (the entry-point file, --basedir, mounts=-v, track_progress, validation_as_error) as given", expected="parse('top.xml', 'BASE', mounts=<the -v pairs in the order given>, track_progress=..., validation_as_error=...)", found=str([{k_: _canon(v_) for k_, v_ in c_.items()} for c_ in calls])[:300], node=f.node)
             elif not ok_out:
                 ctx.violated(rid, f, f"{label}: output", "the parsed workspace is not emitted as JSON on the requested channel", found=str(texts or rec["dumped"])[:200], node=f.node)
             else:
